@@ -194,10 +194,18 @@ def run(chk):
     if missing:
         chk.note_inconclusive("no effects obtained for %s" % missing[:5])
     if chk.violations or chk.tier == "thorough":
-        hit = fresh_battery(chk.seed)
+        hit = fresh_battery(chk.seed) or history_battery(chk.seed)
         chk.extra["native_freshness_test"] = "failed" if hit else "passed"
     chk.samples = [o.j() for o in chk.obs if "returned pointer" in o.name][:8]
 
 
+def history_battery(seed):
+    """'identical output no matter what was computed before': the scripted operations of the scalar-multiplication battery
+    run in ONE process in an order that interleaves routines and term counts (a larger multi-scalar call before a smaller
+    one, table users before and after each other); every result is compared with the stateless big-integer oracle"""
+    from sym import ptreplay
+    return ptreplay.battery_scalarmult(seed, maxn=3) or ptreplay.battery_scalarmult(seed + 1, maxn=4)
+
+
 def safety_net(chk):
-    return fresh_battery(chk.seed)
+    return fresh_battery(chk.seed) or history_battery(chk.seed)
